@@ -5,7 +5,7 @@
 (* object ever created whether its backing file is still mapped.  All of it must equal the specification   *)
 (* state; the state is NOT re-synchronised from the log (the composition is the point), so only the first  *)
 (* mismatch of a history counts.  `Check` selects the conjuncts a property is entitled to:                  *)
-(*   maps (C10)  snapshot (C11)  data (C03)  dirty_sound (C05)  dirty_precise (C16)  mapped (C12)           *)
+(*   maps (C10)  snapshot, snapdata (C11)  data (C03)  dirty_sound (C05)  dirty_precise (C16)  mapped (C12)           *)
 EXTENDS MC_System, Json, IOUtils
 CONSTANT Check
 Rec == ndJsonDeserialize(IOEnv.TRACE)
@@ -42,7 +42,11 @@ DirtySoundOK(s, ls) ==
 DirtyPreciseOK(s, ls) ==
     \A h \in 1 .. Len(s.hs) : \A i \in 1 .. Len(ls.hs[h].regs) :
         LET o == ls.hs[h].regs[i] IN (o.r \in 1 .. Len(s.regs)) => SetOf(o.dirty) \subseteq s.regs[o.r].dirty
-MappedOK(s, ls) == \A r \in 1 .. Len(s.regs) : (ls.mapped[r] = 1) <=> (r \in Reach(s))
+MappedOK(s, ls) == \A r \in 1 .. Len(s.regs) : ls.mapped[r] # 2 => ((ls.mapped[r] = 1) <=> (r \in Reach(s)))    \* 2: anonymous, cannot tell
+\* C11: what a snapshot (or the cell) shows stays readable with the bytes it had
+SnapBytesOK(s, ls) ==
+    \A h \in 1 .. Len(s.hs) : s.hs[h].k \in {"snap", "cell"} => \A i \in 1 .. Len(ls.hs[h].regs) :
+        LET o == ls.hs[h].regs[i] IN (o.r \in 1 .. Len(s.regs)) => (o.got = o.n /\ o.mem = s.regs[o.r].mem)
 
 ResEq(lr, xr) == /\ lr.k = xr.k
                  /\ \A f \in DOMAIN xr \ {"k"} : f \in DOMAIN lr /\ lr[f] = xr[f]
@@ -63,6 +67,7 @@ TraceNext ==
                    /\ (On("maps") => Judge(Lists(s, e.s, {"region", "map"}), "maps", [op |-> e.op]))
                    /\ (On("snapshot") => Judge(Lists(s, e.s, {"snap", "cell"}), "snapshot", [op |-> e.op]))
                    /\ (On("data") => Judge(BytesOK(s, e.s), "data", [op |-> e.op]))
+                   /\ (On("snapdata") => Judge(SnapBytesOK(s, e.s), "snapdata", [op |-> e.op]))
                    /\ (On("dirty_sound") => Judge(DirtySoundOK(s, e.s), "dirty_sound", [op |-> e.op]))
                    /\ (On("dirty_precise") => Judge(DirtyPreciseOK(s, e.s), "dirty_precise", [op |-> e.op]))
                    /\ (On("mapped") => Judge(MappedOK(s, e.s), "mapped", [reach |-> Reach(s)]))
